@@ -442,7 +442,7 @@ func RunScn(scn Scn, env *runner.Env, res *runner.Result, which string) {
 	}
 	res.Count("scenarios_completed", 1)
 	if res.Sample == nil {
-		res.Sample = map[string]any{"scenario": scn, "app_writes": len(w.writes), "events": w.s.Len(), "stores": w.b.SuccessfulCount("Store")}
+		res.Sample = map[string]any{"scenario": scn, "app_writes": w.writes, "events": w.s.Len(), "stores": w.b.SuccessfulCount("Store"), "event_trace_tail": w.s.Tail(30)}
 	}
 }
 
